@@ -436,6 +436,16 @@ func atoi(s string) int {
 // operand := size '(' path ')' | path ; path := word ( '.' word | '[' digits ']' )*
 func (p *parser) operand() *Node {
 	t := p.peek()
+	if !p.bad && t.K == TLParen {
+		// permissive reading: a parenthesised operand is tolerated
+		p.next()
+		n := p.operand()
+		if p.bad || p.peek().K != TRParen {
+			return p.fail()
+		}
+		p.next()
+		return n
+	}
 	if p.bad || t.K != TWord || keyword(t) != "" {
 		return p.fail()
 	}
